@@ -147,6 +147,7 @@ type c31Hdr struct {
 	HasNew bool       `json:"hasnew,omitempty"` // ONT: carries NewChainConfig; NEO: next consensus differs (script NewM-of-New)
 	New    []int      `json:"new,omitempty"`
 	NewM   int        `json:"newm,omitempty"`
+	NewIdx []uint32   `json:"newidx,omitempty"` // ONT: consensus indexes of the New peers (nil: dense)
 	Script string     `json:"script,omitempty"` // NEO witness script: "" tracked | own | lowerm | other | tiny
 	Plan   signerPlan `json:"plan"`
 }
@@ -155,6 +156,7 @@ type c31Case struct {
 	Router  string     `json:"router"` // ont | neo | neo3
 	Set     []int      `json:"set"`
 	M       int        `json:"m,omitempty"`
+	Idx     []uint32   `json:"idx,omitempty"` // ONT: consensus indexes of the genesis peers (nil: dense)
 	Genesis uint32     `json:"genesis"`
 	NoCfg   bool       `json:"nocfg,omitempty"` // ONT: genesis header without NewChainConfig (no trust root peers)
 	Calls   [][]c31Hdr `json:"calls"`
@@ -166,6 +168,7 @@ func genC31Hdr(t *rapid.T) c31Hdr {
 		h.HasNew = true
 		h.New = genSet(t, "new", 1, 6)
 		h.NewM = rapid.IntRange(1, len(h.New)).Draw(t, "newm")
+		h.NewIdx = genPeerIdx(t, "newidx", len(h.New))
 	}
 	h.Script = rapid.SampledFrom([]string{"", "", "", "", "", "", "own", "lowerm", "other", "tiny"}).Draw(t, "script")
 	return h
@@ -175,6 +178,7 @@ func genC31(t *rapid.T) c31Case {
 	c := c31Case{Router: rapid.SampledFrom([]string{"ont", "ont", "neo", "neo3"}).Draw(t, "router")}
 	c.Set = genSet(t, "set", 1, 7)
 	c.M = rapid.IntRange(1, len(c.Set)).Draw(t, "m")
+	c.Idx = genPeerIdx(t, "idx", len(c.Set))
 	c.Genesis = rapid.SampledFrom([]uint32{0, 3, 8}).Draw(t, "genesis")
 	c.NoCfg = c.Router == "ont" && rapid.IntRange(0, 19).Draw(t, "nocfg") == 0
 	c.Calls = rapid.SliceOfN(rapid.SliceOfN(rapid.Custom(genC31Hdr), 1, 3), 1, ev.Scale(7, 10)).Draw(t, "calls")
@@ -183,7 +187,7 @@ func genC31(t *rapid.T) c31Case {
 
 func runC31(ctx *ev.Ctx, c c31Case) {
 	ctx.Label("router:" + c.Router)
-	if len(c.Set) == 0 || !distinct(c.Set) || c.M < 1 || c.M > len(c.Set) {
+	if len(c.Set) == 0 || !distinct(c.Set) || c.M < 1 || c.M > len(c.Set) || !idxOK(c.Idx, len(c.Set)) {
 		ctx.Label("skipped:malformed-case")
 		return
 	}
@@ -194,7 +198,7 @@ func runC31(ctx *ev.Ctx, c c31Case) {
 			if int(c.Genesis)+h.Off > 0 {
 				h.Height = uint32(int(c.Genesis) + h.Off)
 			}
-			if h.HasNew && (len(h.New) == 0 || !distinct(h.New) || h.NewM < 1 || h.NewM > len(h.New)) {
+			if h.HasNew && (len(h.New) == 0 || !distinct(h.New) || h.NewM < 1 || h.NewM > len(h.New) || !idxOK(h.NewIdx, len(h.New))) {
 				ctx.Label("skipped:malformed-case")
 				return
 			}
@@ -243,7 +247,7 @@ func (m ontModel) inForce(h uint32) (uint32, []int, bool) {
 func runC31Ont(ctx *ev.Ctx, c c31Case) {
 	w := newSideWorld(c31Chain, utils.ONT_ROUTER, nil, nil)
 	defer w.Close()
-	g := ontHeader{Height: c.Genesis, HasCfg: !c.NoCfg, NewCfg: c.Set}
+	g := ontHeader{Height: c.Genesis, HasCfg: !c.NoCfg, NewCfg: c.Set, NewIdx: c.Idx}
 	if msg := ontSelfCheck(g); msg != "" {
 		panic("harness: " + msg)
 	}
@@ -276,7 +280,7 @@ func runC31Ont(ctx *ev.Ctx, c c31Case) {
 			}
 			need := ceilThird(len(base))
 			keys, sigs := spec.Plan.resolve(base, need, false)
-			h := ontHeader{Height: spec.Height, Salt: spec.Salt, HasCfg: spec.HasNew, NewCfg: spec.New, Keys: keys, Sigs: sigs}
+			h := ontHeader{Height: spec.Height, Salt: spec.Salt, HasCfg: spec.HasNew, NewCfg: spec.New, NewIdx: spec.NewIdx, Keys: keys, Sigs: sigs}
 			raws = append(raws, ontHeaderBytes(h))
 			if mustReject {
 				continue // the call is already doomed; later headers are sent but not judged
